@@ -175,6 +175,64 @@ def _time_texts(tier, seed):
                       "convention of the EPANET syntax" % len(grid))
 
 
+def _times_section(tier, seed):
+    """[TIMES]: the real _write_times / _read_times pair on every start clock time of a day (every second in the hours around midnight and
+    noon, every 7 s elsewhere) and on durations / time steps with second resolution; the START CLOCKTIME text is compared with the 12-hour
+    clock convention."""
+    import io
+    import types as _t
+    import wntr
+    from wntr.epanet.io import InpFile
+    from wntr.network.options import Options
+    evals, failures, samples = 0, [], []
+    clocks = list(range(0, 3700)) + list(range(39600 - 10, 46800 + 10)) + list(range(82800, 86400)) + list(range(3700, 86400, 7))
+    others = [(0, 1, 1, 1, 0, 1, 0, 1), (86399, 3599, 59, 61, 7, 3601, 1, 359), (360001, 900, 300, 7200, 7201, 1800, 3661, 360)]
+
+    def cycle(opts_time):
+        wn_w = _t.SimpleNamespace(options=_t.SimpleNamespace(time=opts_time))
+        f = io.BytesIO()
+        InpFile()._write_times(f, wn_w)
+        lines = [ln for ln in f.getvalue().decode().split("\n") if ln.strip() and not ln.startswith("[")]
+        r = InpFile()
+        r.wn = _t.SimpleNamespace(options=Options())
+        r.sections["[TIMES]"] = [(i + 1, ln) for i, ln in enumerate(lines)]
+        r._read_times()
+        return lines, r.wn.options.time
+    base = Options().time
+    keys = ["duration", "hydraulic_timestep", "quality_timestep", "pattern_timestep", "pattern_start", "report_timestep", "report_start", "rule_timestep"]
+    for c in clocks:
+        t = Options().time
+        t.start_clocktime = c
+        lines, back = cycle(t)
+        evals += 1
+        txt = [ln for ln in lines if ln.upper().startswith("START CLOCKTIME")][0].split()[2:]
+        h = c // 3600
+        spec = "%02d:%02d:%02d %s" % (h if h < 12 else h - 12, (c % 3600) // 60, c % 60, "AM" if h < 12 else "PM")      # what the writer's own format means
+        means = (0 if txt[0].startswith("12") else int(txt[0][:2])) * 3600 + int(txt[0][3:5]) * 60 + int(txt[0][6:8]) + (43200 if txt[1] == "PM" else 0)
+        if back.start_clocktime != c or means != c:
+            if len(failures) < 10:
+                failures.append(dict(start_clocktime=c, written=" ".join(txt), epanet_reads_it_as=means, read_back=back.start_clocktime))
+    for vals in others:
+        t = Options().time
+        for k, v in zip(keys, vals):
+            setattr(t, k, v)
+        lines, back = cycle(t)
+        evals += 1
+        diff = {k: (getattr(t, k), getattr(back, k)) for k in keys if getattr(t, k) != getattr(back, k)}
+        if diff and len(failures) < 10:
+            failures.append(dict(times=dict(zip(keys, vals)), changed=diff))
+    samples.append(dict(start_clocktime=45000, written=[ln for ln in cycle(_with(Options().time, 45000))[0] if "CLOCKTIME" in ln.upper()]))
+    return dict(evaluations=evals, distinct_nontrivial=len(clocks) + len(others), failures=failures, samples=samples, exhaustive=False,
+                scope="%d start clock times (every second around midnight and noon, every 7 s elsewhere) and %d combinations of the other time options "
+                      "through the real _write_times / _read_times; START CLOCKTIME text also read by the 12-hour clock convention" % (len(clocks), len(others)))
+
+
+def _with(t, c):
+    t.start_clocktime = c
+    return t
+
+
+BOUNDED.append(Bounded("C12.times_section", P + ["C03"], _times_section, kind="enumerated times through the real writer / reader pair"))
 BOUNDED.append(Bounded("C12.time_texts", P + ["C13", "C03", "C04"], _time_texts, kind="exhaustive over the times of a day"))
 
 
@@ -654,7 +712,9 @@ class _WnRx(NativeModel):
         return self.tank
 
 
-def _reaction_case(units, bulk_order, wall_order):
+def _reaction_case(units, bulk_order, wall_order, tank_order=None):
+    tank_order = bulk_order if tank_order is None else tank_order
+
     def build(cx):
         tn, pn = cx.name("tank"), cx.name("pipe")
         kb, kw_, kt, gb, gw = cx.real("pipe_bulk"), cx.real("pipe_wall"), cx.real("tank_bulk"), cx.real("global_bulk"), cx.real("global_wall")
@@ -665,7 +725,7 @@ def _reaction_case(units, bulk_order, wall_order):
             return tank, pipe
         tw, pw = side((kb, kw_, kt))
         tr, pr = side((None, None, None))
-        rxw = _Bag(bulk_order=bulk_order, wall_order=wall_order, tank_order=bulk_order, bulk_coeff=gb, wall_coeff=gw, limiting_potential=None, roughness_correl=None)
+        rxw = _Bag(bulk_order=bulk_order, wall_order=wall_order, tank_order=tank_order, bulk_coeff=gb, wall_coeff=gw, limiting_potential=None, roughness_correl=None)
         rxr = _Bag(bulk_order=1, wall_order=1, tank_order=1, bulk_coeff=None, wall_coeff=None, limiting_potential=None, roughness_correl=None)     # defaults of a new model
         wnw, wnr = _WnRx(tw, pw, rxw), _WnRx(tr, pr, rxr)
         cx.target(_roundtrip_call, InpFile._write_reactions, InpFile._read_reactions, "[REACTIONS]", _inp(units, wnw), _inp(units, wnr), wnw)
@@ -673,12 +733,12 @@ def _reaction_case(units, bulk_order, wall_order):
         def post(out):
             if not out.returned:
                 return []
-            return [("reaction_orders_round_trip", rxr.bulk_order == bulk_order and rxr.wall_order == wall_order and rxr.tank_order == bulk_order),
+            return [("reaction_orders_round_trip", rxr.bulk_order == bulk_order and rxr.wall_order == wall_order and rxr.tank_order == tank_order),
                     ("pipe_bulk_and_wall_coefficients_round_trip_under_the_model_s_reaction_orders", z3.And(_eqn(pr.fields["_bulk_coeff"], kb), _eqn(pr.fields["_wall_coeff"], kw_))),
                     ("tank_coefficient_round_trips", _eqn(tr.fields["_bulk_coeff"], kt)),
                     ("global_coefficients_round_trip", z3.And(_eqn(rxr.bulk_coeff, gb), _eqn(rxr.wall_coeff, gw)))]
         cx.ensure(post)
-    return Case("%s,bulk_order=%d,wall_order=%d" % (units.name, bulk_order, wall_order), build, crosscheck=False)
+    return Case("%s,bulk_order=%d,wall_order=%d,tank_order=%d" % (units.name, bulk_order, wall_order, tank_order), build, crosscheck=False)
 
 
 # ---------------------------------------------------------------------------- [CURVES]: what EPANET is told
@@ -801,7 +861,7 @@ class _CtlModel(NativeModel):
         self.added.append((name, obj))
 
 
-def _control_case(units, src_kind, relation_below, target_cls, attribute):
+def _control_case(units, src_kind, relation_below, target_cls, attribute, strict=True):
     def build(cx):
         import numpy as _np
         import wntr.network.controls as ctl
@@ -820,7 +880,8 @@ def _control_case(units, src_kind, relation_below, target_cls, attribute):
         val = cx.real("value") if attribute != "status" else LinkStatus.Closed
         act = SymObj(ctl.ControlAction, dict(_target_obj=target, _attribute=attribute, _value=val))
         cond = SymObj(ctl.ValueCondition, dict(_source_obj=src, _source_attr=("level" if src_kind == "Tank" else "pressure"),
-                                              _relation=(ctl.Comparison.lt if relation_below else ctl.Comparison.gt), _threshold=thr))
+                                              _relation=((ctl.Comparison.lt if strict else ctl.Comparison.le) if relation_below else
+                                                         (ctl.Comparison.gt if strict else ctl.Comparison.ge)), _threshold=thr))
         control = SymObj(ctl.Control, dict(_condition=cond, _then_actions=[act], _else_actions=[], _control_type=ctl._ControlType.postsolve, _name="c1"))
         wnw = _CtlModel(control, [(tn, target), (sn, src)])
         wnr = _CtlModel(None, [(tn, target), (sn, src)])
@@ -854,7 +915,7 @@ def _control_case(units, src_kind, relation_below, target_cls, attribute):
             return posts
         cx.ensure(post)
     nm = target_cls if isinstance(target_cls, str) else target_cls.__name__
-    return Case("%s,if_%s_%s,%s_%s" % (units.name, src_kind, "below" if relation_below else "above", nm, attribute), build, crosscheck=False)
+    return Case("%s,if_%s_%s%s,%s_%s" % (units.name, src_kind, "below" if relation_below else "above", "" if strict else "_or_equal", nm, attribute), build, crosscheck=False)
 
 
 _CTL_KINDS = [("Tank", False, Pipe, "status"), ("Junction", True, Pipe, "status"), ("Junction", False, PRValve, "setting"), ("Tank", True, PSValve, "setting"),
@@ -882,14 +943,16 @@ CONTRACTS = [
              models=_rule_models, interpret_always=(_rule_pair,),
              trusted=_pair_trust + ["text splitting of the [RULES] section into clauses (parse_rules_lines): bounded round trip"]),
     Contract("wntr.epanet.io:InpFile._write_controls/_read_controls/_read_control_line", P + ["C03"],
-             [_control_case(u, *k) for u in _U for k in _CTL_KINDS], models=_control_models, interpret_always=(_roundtrip_call,),
+             [_control_case(u, *k) for u in _U for k in _CTL_KINDS] +
+             [_control_case(u, *k, strict=False) for u in (FlowUnits.GPM, FlowUnits.LPS) for k in _CTL_KINDS[:4]], models=_control_models, interpret_always=(_roundtrip_call,),
              note="conditional simple controls (tank level / junction pressure, above / below) with a status, valve setting or pump speed action; "
                   "time and clock-time controls are in the bounded round trip",
              trusted=_pair_trust),
     Contract("wntr.epanet.io:InpFile._write_emitters/_read_emitters", P + ["C03"], [_emitter_case(u) for u in _U], interpret_always=(_roundtrip_call,), trusted=_pair_trust),
     Contract("wntr.epanet.io:InpFile._write_energy/_read_energy", P, [_energy_case(u) for u in _U], interpret_always=(_roundtrip_call,),
              note="global price / efficiency / demand charge and one pump with its own price; efficiency curves and patterns are in the bounded round trip", trusted=_pair_trust),
-    Contract("wntr.epanet.io:InpFile._write_reactions/_read_reactions", P, [_reaction_case(u, b, w) for u in _U for (b, w) in ((1, 1), (2, 0), (0, 1), (2, 1))],
+    Contract("wntr.epanet.io:InpFile._write_reactions/_read_reactions", P, [_reaction_case(u, b, w) for u in _U for (b, w) in ((1, 1), (2, 0), (0, 1), (2, 1))] +
+             [_reaction_case(u, b, w, t) for u in (FlowUnits.GPM, FlowUnits.LPS) for (b, w, t) in ((1, 1, 2), (2, 1, 1), (0, 0, 1))],
              models=_token_models, interpret_always=(_roundtrip_call,),
              note="one pipe, one tank, global coefficients; the ORDER lines follow the coefficients in the written text", trusted=_pair_trust),
     Contract("wntr.epanet.io:InpFile._write_sources/_read_sources", P, [_source_case(u, t, hp) for u in _U for (t, hp) in (("MASS", False), ("CONCEN", True), ("SETPOINT", False), ("FLOWPACED", True))],
